@@ -179,18 +179,29 @@ def translate(wasm_bytes, workdir, w2c2=None, w2c2_args=(), modname='m'):
     return r.returncode, r.stderr.decode(errors='replace')
 
 
-def compile_driver(workdir, cc='clang', cflags=('-O0',), extra_srcs=(), defines=(), out='drv', link=()):
+def compile_driver(workdir, cc='clang', cflags=('-O0',), extra_srcs=(), defines=(), out='drv', link=(), mod_cflags=None):
     ref = build_ref()
-    srcs = [os.path.join(workdir, 'm.c'), os.path.join(workdir, 'driver.c')] + list(extra_srcs)
-    # further implementation files in multi-file mode
     import glob
-    srcs += sorted(glob.glob(os.path.join(workdir, '[sd][0-9]*.c')))
+    modsrcs = [os.path.join(workdir, 'm.c')] + sorted(glob.glob(os.path.join(workdir, '[sd][0-9]*.c')))
+    if mod_cflags is not None:
+        # the translated module is compiled on its own with the cell's flags (e.g. -std=gnu89), the driver with the default dialect
+        objs = []
+        for src in modsrcs:
+            o = src[:-2] + '.o'
+            cmd = [cc] + list(mod_cflags) + ['-w'] + list(defines) + ['-I', os.path.join(REPO, 'w2c2'), '-I', workdir, '-c', src, '-o', o]
+            r = run(cmd, timeout=1800)
+            if r.returncode != 0:
+                return r.returncode, r.stderr.decode(errors='replace'), cmd
+            objs.append(o)
+        srcs = [os.path.join(workdir, 'driver.c')] + list(extra_srcs) + objs
+    else:
+        srcs = modsrcs[:1] + [os.path.join(workdir, 'driver.c')] + list(extra_srcs) + modsrcs[1:]
     cmd = [cc] + list(cflags) + ['-w'] + list(defines) + ['-I', os.path.join(REPO, 'w2c2'), '-I', ref['inc'], '-I', workdir] + srcs + ref['objs'] + list(link) + ['-lm', '-o', os.path.join(workdir, out)]
     r = run(cmd, timeout=1800)
     return r.returncode, r.stderr.decode(errors='replace'), cmd
 
 
-def run_batch(batch, cc='clang', cflags=('-O0',), w2c2=None, w2c2_args=(), timeout=900, drv_args=(), keep=False, driver_extra='', defines=(), env=None):
+def run_batch(batch, cc='clang', cflags=('-O0',), w2c2=None, w2c2_args=(), timeout=900, drv_args=(), keep=False, driver_extra='', defines=(), env=None, mod_cflags=None, compile_only=False):
     """Full pipeline for one batch.  Returns dict(parsed output + 'stage' on failure)."""
     wd = scratch('batch')
     try:
@@ -201,7 +212,9 @@ def run_batch(batch, cc='clang', cflags=('-O0',), w2c2=None, w2c2_args=(), timeo
             batch.post_translate(batch, wd)
         with open(os.path.join(wd, 'driver.c'), 'w') as f:
             f.write(gen_driver(batch, extra=driver_extra))
-        rc, err, cmd = compile_driver(wd, cc, cflags, defines=defines)
+        rc, err, cmd = compile_driver(wd, cc, cflags, defines=defines, mod_cflags=mod_cflags)
+        if rc == 0 and compile_only:
+            return {'stage': 'compile', 'done': True, 'evals': 0, 'nontrivial': 0, 'funcs': len(batch.cases), 'skipped': 0, 'weak': 0, 'traps': 0, 'mismatches': 0, 'mismatch_lines': [], 'crash': None, 'errors': []}
         if rc != 0:
             # attribute compile errors to translated functions (internal names f<index>)
             bad = []
